@@ -1224,6 +1224,14 @@ func (c *collector) expr(e ast.Expr) {
 						c.add(access{expr: x.Args[0], isMap: true, write: true})
 					}
 					return
+				case "clear":
+					if _, ok := typeOf(w.info, x.Args[0]).Underlying().(*types.Map); ok {
+						c.expr(x.Args[0])
+						if !c.stopped && w.sharedMapExpr(x.Args[0]) {
+							c.add(access{expr: x.Args[0], isMap: true, write: true})
+						}
+						return
+					}
 				case "panic", "recover", "print", "println", "close":
 					c.stopped = true
 					return
